@@ -127,6 +127,29 @@ def _load_or_create_hmac_key(cache_dir: str) -> bytes:
     return key
 
 
+class _ForeignRow:
+    """Stands for a stored row that DiskCache did not write (see _no_unpickle_disk)."""
+
+
+def _no_unpickle_disk(diskcache: Any) -> type:
+    """A diskcache ``Disk`` that never deserialises stored values.
+
+    DiskCache writes bytes (the payload) and str (the signature); diskcache
+    stores both raw. A row in pickle mode was therefore not written by us,
+    and diskcache would unpickle it while fetching, before the HMAC check has
+    had a chance to reject it. Hand back a marker instead: ``get`` treats any
+    non-bytes payload / non-str signature as a damaged entry.
+    """
+
+    class NoUnpickleDisk(diskcache.Disk):
+        def fetch(self, mode: int, filename: Any, value: Any, read: bool) -> Any:
+            if mode == diskcache.core.MODE_PICKLE:
+                return _ForeignRow()
+            return super().fetch(mode, filename, value, read)
+
+    return NoUnpickleDisk
+
+
 def _compute_hmac_bytes(hmac_key: bytes, cache_key: str, raw_bytes: bytes) -> str:
     """Compute HMAC-SHA256 over the cache key and raw serialized bytes."""
     msg = cache_key.encode() + raw_bytes
@@ -164,6 +187,7 @@ class DiskCache:
             raise ImportError("diskcache is required for DiskCache. Install it with: pip install 'hypergraph[cache]'") from None
 
         expanded = os.path.expanduser(cache_dir)
+        kwargs.setdefault("disk", _no_unpickle_disk(diskcache))
         self._cache = diskcache.Cache(expanded, **kwargs)
         self._hmac_key = _load_or_create_hmac_key(expanded)
 
